@@ -16,7 +16,6 @@ def freshResult (w : World) (g : Graph) (r : Ref) (acc : String) : List Ref :=
   let n := w.files.length
   let edges := usesList w g
   let ee := enumUses w g
-  let nm := (allMsgs w).length
   match r.path, w.files[r.file]? with
   | [], some f =>
     (match acc with
@@ -35,7 +34,7 @@ def freshResult (w : World) (g : Graph) (r : Ref) (acc : String) : List Ref :=
   | [5, i], some f =>
     (match f.enums[i]?, acc with
      | some e, "values" => childRefs r.file r.path 2 e.values.length
-     | some _, "edpts" => sortRefs (query edges ee nm Caches.empty r .enumDependents).2
+     | some _, "edpts" => sortRefs (query edges ee Caches.empty r .enumDependents).2
      | some _, "walk" => (walkModel [] w r false).trace.map (·.1)
      | _, _ => [])
   | [6, i], some f =>
@@ -62,8 +61,8 @@ def freshResult (w : World) (g : Graph) (r : Ref) (acc : String) : List Ref :=
        | "synthFields" => (((List.range h.oneofs.length).filter (pgsSynthetic f h)).map members).flatten
        | "realOneofs" => ((List.range h.oneofs.length).filter (fun o => !pgsSynthetic f h o)).map fun o => ⟨r.file, r.path ++ [8, o]⟩
        | "imports" => fileRefs (sortNat ((msgFieldRefs r h).map (fieldImports g)).flatten)
-       | "deps" => sortRefs (query edges ee nm Caches.empty r .dependencies).2
-       | "dpts" => sortRefs (query edges ee nm Caches.empty r .dependents).2
+       | "deps" => sortRefs (query edges ee Caches.empty r .dependencies).2
+       | "dpts" => sortRefs (query edges ee Caches.empty r .dependents).2
        | "walk" => if h.mapEntry then [] else (walkModel [] w r false).trace.map (·.1)
        | _ => [])
     | none =>
@@ -73,7 +72,7 @@ def freshResult (w : World) (g : Graph) (r : Ref) (acc : String) : List Ref :=
         (match w.msgAt ⟨r.file, rp.reverse⟩ with
          | some (h, _) => (match h.enums[i]?, acc with
            | some e, "values" => childRefs r.file r.path 2 e.values.length
-           | some _, "edpts" => sortRefs (query edges ee nm Caches.empty r .enumDependents).2
+           | some _, "edpts" => sortRefs (query edges ee Caches.empty r .enumDependents).2
            | _, _ => [])
          | none => [])
       | _ => []
